@@ -12,7 +12,31 @@ type Hooks struct {
 
 var _ stakingtypes.StakingHooks = Hooks{}
 
-var sharesBeforeModified = sdk.NewDec(0)
+// the shares a delegation had before the staking message modified them are handed from
+// BeforeDelegationSharesModified to the After/Removed hook through the (transaction scoped)
+// store, so that a failed or simulated transaction leaves nothing behind
+var sharesBeforeModifiedKey = []byte("Hooks/sharesBeforeModified/")
+
+func (k Keeper) setSharesBeforeModified(ctx sdk.Context, shares sdk.Dec) {
+	store := ctx.KVStore(k.storeKey)
+	if shares.IsNil() || shares.IsZero() {
+		store.Delete(sharesBeforeModifiedKey)
+		return
+	}
+	store.Set(sharesBeforeModifiedKey, []byte(shares.String()))
+}
+
+func (k Keeper) getSharesBeforeModified(ctx sdk.Context) sdk.Dec {
+	bz := ctx.KVStore(k.storeKey).Get(sharesBeforeModifiedKey)
+	if bz == nil {
+		return sdk.NewDec(0)
+	}
+	shares, err := sdk.NewDecFromStr(string(bz))
+	if err != nil {
+		return sdk.NewDec(0)
+	}
+	return shares
+}
 
 func (k Keeper) Hooks() Hooks {
 	return Hooks{k}
@@ -48,7 +72,7 @@ func (hook Hooks) BeforeDelegationCreated(ctx sdk.Context, delAddr sdk.AccAddres
 
 func (hook Hooks) BeforeDelegationSharesModified(ctx sdk.Context, delAddr sdk.AccAddress, valAddr sdk.ValAddress) error {
 	del := hook.k.staking.Delegation(ctx, delAddr, valAddr)
-	sharesBeforeModified = del.GetShares()
+	hook.k.setSharesBeforeModified(ctx, del.GetShares())
 	return nil
 } // Must be called when a delegation's shares are modified
 
@@ -68,6 +92,8 @@ func (hook Hooks) BeforeValidatorSlashed(ctx sdk.Context, valAddr sdk.ValAddress
 
 func (hook Hooks) verifySuperStorageNodes(ctx sdk.Context, valAddr sdk.ValAddress, accAddr sdk.AccAddress, beforeDeletationRemoved bool) {
 	delegations := hook.k.staking.GetValidatorDelegations(ctx, valAddr)
+
+	sharesBeforeModified := hook.k.getSharesBeforeModified(ctx)
 
 	//Records the shares that the validator shares have not been subtracted at the time of the unbond hook call
 	sharesToSub := sdk.NewDec(0)
@@ -128,6 +154,6 @@ func (hook Hooks) verifySuperStorageNodes(ctx sdk.Context, valAddr sdk.ValAddres
 
 	// reset shares before modified
 	if !sharesBeforeModified.IsZero() {
-		sharesBeforeModified = sdk.NewDec(0)
+		hook.k.setSharesBeforeModified(ctx, sdk.NewDec(0))
 	}
 }
